@@ -23,9 +23,45 @@ CHECKS = {
         note="Line-granularity preemption; locks are replaced by cooperative ones discovered by type; cached/gRPC: backend calls are atomic steps; bound 2 (mem) / 1 quick, 3 / 2 thorough.",
         design="3/C03",
     ),
+    "C05": dict(
+        engine="procx",
+        category="fault_enumeration",
+        technique="exhaustive crash-point enumeration (every syscall boundary and every byte offset of every record write) of the real journal code over a simulated file system, survivor interleavings by state-cached stateless search",
+        text="A victim JournalStorage(JournalFileBackend) runs each call of a 7-call menu (and short multi-call histories) over SimFS and is killed at every syscall boundary and at every byte offset inside every record write; then every survivor continuation (1 survivor sequential, 2 survivors all interleavings up to the preemption bound with state caching) runs, and a fresh opener replays the file. Observed states must equal the reference after acked or acked+interrupted, no survivor call may raise, survivors must terminate. Both lock classes.",
+        note="Crash = process death (page cache survives); one crash per run; RDB/SQLite crash points are not yet covered by this check (journal only); SimFS is validated against tmpfs in C07.",
+        design="3/C05",
+    ),
+    "C07": dict(
+        engine="procx",
+        category="model_checking",
+        technique="stateless model checking with state caching of 2-3 real JournalFileBackend objects over a simulated POSIX file system (every syscall a scheduling point, writes delivered in enumerated chunks)",
+        text="All interleavings of append_logs/read_logs calls from 2-3 backend objects with their own lock objects (2 procs x 1 call: unbounded; 2x2 and 3x1: preemption-bounded), for both lock classes, reader buffer sizes 8192 and 16, warm and cold offset caches and every enumerated cut offset of the designated write; oracle with ghost state: file = merge of whole batches, reads are contiguous slices covering finished appends, single lock holder, cached offsets agree with a fresh reader.",
+        note="Environment model = SimFS (validated against a real tmpfs directory on sequential traces each run); sleeping pollers are blocked until a path they looked at changes; no crash here.",
+        design="3/C07",
+    ),
+    "C15": dict(
+        engine="seqx-lattice",
+        category="exploration",
+        technique="bounded-exhaustive enumeration of integer point-set lattices against exact (integer cell-count / Pareto-peeling / exhaustive-subset) oracles",
+        text="All multisets of points from small integer lattices in 1-5 dimensions (duplicates, ties, dominated points, points on the reference boundary, +-inf alphabet) are fed to compute_hypervolume, _fast_non_domination_rank (all penalty vectors, all n_below) and _solve_hssp (all subset sizes on all mutually non-dominated multisets) and compared with exact oracles. Nothing is claimed off the lattice.",
+        note="Value-domain property: the family degenerates to exhaustive enumeration of a finite argument lattice; indeterminate 0*inf volumes are accepted either way.",
+        design="3/C15",
+    ),
+    "C18": dict(
+        engine="seqx-lattice",
+        category="exploration",
+        technique="bounded-exhaustive enumeration of an argument lattice built from the code's branch points, compared with SciPy within stated tolerances",
+        text="Every (a, b, q, x, loc, scale) tuple of a lattice placed on both sides of each switch point of _truncnorm/_erf (and batched shapes, mixtures of 1-3 components of every kind) is evaluated and compared with scipy.stats.truncnorm / scipy.special within measured-and-stated tolerances; containment, monotonicity, unit mass and NaN-freeness are checked. Weakest claim of the set: nothing is said off the lattice.",
+        note="SciPy is the trusted reference; tolerances are stated in vf/c18.py and the measured maxima are written to the evidence on every run.",
+        design="3/C18",
+    ),
 }
 
 ENGINES = [
+    dict(name="procx", path="vf/simfs.py", serves_properties=["C05", "C07"],
+         kind_free_text="processes as baton-scheduled threads over a simulated file system / virtual clock; every syscall a scheduling or crash point; state caching on (file image, per-process syscall-history digests)"),
+    dict(name="seqx-lattice", path="vf/c15.py", serves_properties=["C15", "C18"],
+         kind_free_text="bounded-exhaustive enumeration of finite argument lattices with exact or reference oracles"),
     dict(name="thx", path="vf/thx.py", serves_properties=["C03"],
          kind_free_text="stateless exploration of thread interleavings of the real code under a controlled scheduler, preemption-bounded"),
     dict(name="seqx", path="vf/c01.py", serves_properties=["C01"],
